@@ -56,7 +56,7 @@ def queries(tier):
             # a blocking receive that is later satisfied from sub0_recv_cb: the writes go through the context pointer
             # NNI_LIST_FOREACH derives by pointer arithmetic, CBMC loses field sensitivity for the socket struct and the
             # drain loop of sock_close does not terminate in symex (measured > 400 s).  These skeletons end without Z.
-            w = w[:-2]
+            pass
         defs["SKEL"] = w
         if "(1," not in w:
             defs["ONECTX"] = 1   # only the socket's own context exists (two contexts make the context pointer symbolic in symex)
